@@ -558,6 +558,7 @@ class _InlineFunctionCallsForModuleHandle:
         self.generator = definition_generator
         self.resource = resource
         self.aim = aim_offset
+        self.rewritten_lines = set()
 
     def occurred_inside_skip(self, change_collector, occurrence):
         if not occurrence.is_defined():
@@ -583,6 +584,14 @@ class _InlineFunctionCallsForModuleHandle:
         start_line, end_line = self.pymodule.logical_lines.logical_line_in(lineno)
         line_start = self.lines.get_line_start(start_line)
         line_end = self.lines.get_line_end(end_line)
+        if start_line in self.rewritten_lines:
+            # each call replaces its whole logical line, built from the
+            # original text: a second one would bring the first call back
+            raise exceptions.RefactoringError(
+                "Cannot inline two calls in the same statement"
+                " in <file: %s, offset: %d>" % (self.resource.path, start)
+            )
+        self.rewritten_lines.add(start_line)
 
         returns = (
             self.source[line_start:start].strip() != ""
